@@ -67,4 +67,88 @@ Qed.
 
 Lemma znth_opt_map {B} (f : A -> B) l k : znth_opt k (map f l) = option_map f (znth_opt k l).
 Proof. unfold znth_opt. destruct (k <? 0); [reflexivity|]. apply nth_error_map. Qed.
+
+(* iter().skip(a).step_by(s).take(n): exactly the strided elements a, a+s, ..., a+(n-1)s when they exist *)
+Lemma zview_exact l (a s n : Z) : 0 <= a -> 0 < s -> 0 <= n ->
+  (n = 0 \/ (a + (n - 1) * s < zlen l /\ s <= zlen l)) ->
+  exists v, zview a s n l = Val v /\ zlen v = n /\ forall t, 0 <= t < n -> znth_opt t v = znth_opt (a + t * s) l.
+Proof.
+  intros Ha Hs Hn Hfit. unfold zview. assert (s =? 0 = false) as -> by lia.
+  eexists. split; [reflexivity|].
+  destruct Hfit as [->|[Hfit Hsl]].
+  { unfold view. pose proof (zlen_nonneg l). replace (Z.to_nat (Z.min 0 (zlen l))) with 0%nat by lia. cbn [firstn]. split; [reflexivity|]. intros t Ht. lia. }
+  destruct (Z.eq_dec n 0) as [->|Hn0].
+  { unfold view. pose proof (zlen_nonneg l). replace (Z.to_nat (Z.min 0 (zlen l))) with 0%nat by lia. cbn [firstn]. split; [reflexivity|]. intros t Ht. lia. }
+  assert (a < zlen l) by nia. assert (n <= zlen l) by nia.
+  rewrite (Z.min_l a) by lia. rewrite (Z.min_l s) by lia. rewrite (Z.min_l n) by lia.
+  destruct l as [|d0 l']; [unfold zlen in *; cbn in *; lia|]. set (l := d0 :: l') in *.
+  assert (view A (Z.to_nat a) (Z.to_nat s) (Z.to_nat n) l = strided A d0 (Z.to_nat a) (Z.to_nat s) (Z.to_nat n) l) as Hv.
+  { apply (view_is_strided A d0); [lia|]. right. unfold zlen in *. nia. }
+  rewrite Hv. unfold strided. split.
+  - unfold zlen. rewrite map_length, seq_length. lia.
+  - intros t Ht. unfold znth_opt. destruct (t <? 0) eqn:E1; [exfalso; lia|]. destruct (a + t * s <? 0) eqn:E2; [exfalso; nia|].
+    rewrite nth_error_map. rewrite (nth_error_nth' (seq 0 (Z.to_nat n)) 0%nat) by (rewrite seq_length; lia).
+    rewrite seq_nth by lia. cbn [option_map Nat.add].
+    replace (Z.to_nat (a + t * s)) with (Z.to_nat a + Z.to_nat t * Z.to_nat s)%nat by nia.
+    symmetry. apply nth_error_nth'. unfold zlen in *. nia.
+Qed.
+
+Lemma znth_opt_combine {B} (l1 : list A) (l2 : list B) k x y :
+  znth_opt k l1 = Some x -> znth_opt k l2 = Some y -> znth_opt k (combine l1 l2) = Some (x, y).
+Proof.
+  unfold znth_opt. destruct (k <? 0); [discriminate|]. generalize (Z.to_nat k) as n. clear k.
+  revert l2. induction l1 as [|a l1 IH]; intros l2 n H1 H2; [destruct n; discriminate|].
+  destruct l2 as [|b l2]; [destruct n; discriminate|]. destruct n as [|n]; cbn in *; [congruence|]. now apply IH.
+Qed.
+Lemma zlen_combine {B} (l1 : list A) (l2 : list B) : zlen l1 = zlen l2 -> zlen (combine l1 l2) = zlen l1.
+Proof. unfold zlen. intros H. rewrite combine_length. lia. Qed.
+
+(* map with an effectful body that never fails on the given list *)
+Lemma map_res_ok {B} (f : A -> res B) (g : Z -> A -> B) l :
+  (forall k x, znth_opt k l = Some x -> f x = Val (g k x)) ->
+  exists ys, map_res f l = Val ys /\ zlen ys = zlen l /\ forall k x, znth_opt k l = Some x -> znth_opt k ys = Some (g k x).
+Proof.
+  revert g. induction l as [|a l IH]; intros g H.
+  - exists []. repeat split; auto. intros k x E. unfold znth_opt in E. destruct (k <? 0); [discriminate|]. destruct (Z.to_nat k); discriminate.
+  - destruct (IH (fun k x => g (k + 1) x)) as (ys & E & Hl & Hn).
+    { intros k x Hk. apply H. unfold znth_opt in *. destruct (k <? 0) eqn:E1; [discriminate|]. destruct (k + 1 <? 0) eqn:E2; [exfalso; lia|].
+      replace (Z.to_nat (k + 1)) with (S (Z.to_nat k)) by lia. exact Hk. }
+    cbn [map_res]. rewrite (H 0 a eq_refl). cbn [bind]. rewrite E. cbn [bind].
+    exists (g 0 a :: ys). split; [reflexivity|]. split; [unfold zlen in *; cbn [length]; lia|].
+    intros k x Hk. unfold znth_opt in *. destruct (k <? 0) eqn:E1; [discriminate|].
+    destruct (Z.to_nat k) as [|n] eqn:En.
+    + cbn in Hk |- *. injection Hk as <-. replace k with 0 by lia. reflexivity.
+    + cbn [nth_error] in Hk |- *. specialize (Hn (k - 1) x). destruct (k - 1 <? 0) eqn:E3; [exfalso; lia|].
+      replace (Z.to_nat (k - 1)) with n in Hn by lia. rewrite Hn by exact Hk. f_equal. f_equal. lia.
+Qed.
+
+(* the same with a relational description of each result *)
+Lemma map_res_rel {B} (f : A -> res B) (P : Z -> A -> B -> Prop) l :
+  (forall k x, znth_opt k l = Some x -> exists y, f x = Val y /\ P k x y) ->
+  exists ys, map_res f l = Val ys /\ zlen ys = zlen l /\
+    forall k x, znth_opt k l = Some x -> exists y, znth_opt k ys = Some y /\ P k x y.
+Proof.
+  revert P. induction l as [|a l IH]; intros P H.
+  - exists []. repeat split; auto. intros k x E. unfold znth_opt in E. destruct (k <? 0); [discriminate|]. destruct (Z.to_nat k); discriminate.
+  - destruct (IH (fun k x y => P (k + 1) x y)) as (ys & E & Hl & Hn).
+    { intros k x Hk. apply H. unfold znth_opt in *. destruct (k <? 0) eqn:E1; [discriminate|]. destruct (k + 1 <? 0) eqn:E2; [exfalso; lia|].
+      replace (Z.to_nat (k + 1)) with (S (Z.to_nat k)) by lia. exact Hk. }
+    destruct (H 0 a eq_refl) as (y0 & E0 & P0).
+    cbn [map_res]. rewrite E0. cbn [bind]. rewrite E. cbn [bind].
+    exists (y0 :: ys). split; [reflexivity|]. split; [unfold zlen in *; cbn [length]; lia|].
+    intros k x Hk. unfold znth_opt in *. destruct (k <? 0) eqn:E1; [discriminate|].
+    destruct (Z.to_nat k) as [|n] eqn:En.
+    + cbn in Hk |- *. injection Hk as <-. replace k with 0 by lia. eauto.
+    + cbn [nth_error] in Hk |- *. specialize (Hn (k - 1) x). destruct (k - 1 <? 0) eqn:E3; [exfalso; lia|].
+      replace (Z.to_nat (k - 1)) with n in Hn by lia. destruct (Hn Hk) as (y & Ey & Py).
+      exists y. split; [exact Ey|]. replace (k - 1 + 1) with k in Py by lia. exact Py.
+Qed.
+
+Lemma znth_opt_combine_inv {B} (l1 : list A) (l2 : list B) k x y :
+  znth_opt k (combine l1 l2) = Some (x, y) -> znth_opt k l1 = Some x /\ znth_opt k l2 = Some y.
+Proof.
+  unfold znth_opt. destruct (k <? 0); [discriminate|]. generalize (Z.to_nat k) as n. clear k.
+  revert l2. induction l1 as [|a l1 IH]; intros l2 n H; [destruct n; discriminate|].
+  destruct l2 as [|b l2]; [destruct n; discriminate|]. destruct n as [|n]; cbn in *; [split; congruence|]. now apply IH.
+Qed.
 End SliceFacts.
